@@ -1059,3 +1059,25 @@ def _content_whole(repo, ob, failure):
 
 
 GENERATORS.insert(0, ("C19.content.whole", _content_whole))
+
+
+def _size_delta_round(repo, ob, failure):
+    """dw / dh / dwh adjust the size of round shapes as they do for a rect, however the size was given"""
+    import re as _re
+    doc = ('<svg><rect id="a" xy="10 20" wh="30 10"/><rect id="r" xy="#a|h 2" wh="#a" dwh="4 2"/><ellipse id="e" xy="#a|h 2" wh="#a" dwh="4 2"/>'
+           '<ellipse id="f" xy="#a|h 2" rxy="#a" dwh="4 2"/><circle id="c" xy="#a|h 2" wh="#a~h" dwh="4"/><circle id="d" xy="#a|h 2" r="#a~ry" dw="4"/></svg>')
+    want = [r'<rect id="r" x="42" y="19" width="34" height="12"', r'<ellipse id="e" cx="59" cy="25" rx="17" ry="6"', r'<ellipse id="f" cx="59" cy="25" rx="17" ry="6"',
+            r'<circle id="c" cx="49" cy="25" r="7"', r'<circle id="d" cx="49" cy="25" r="7"']
+    r = run_svgdx(repo, doc)
+    if r["rc"] != 0:
+        return None
+    body = r["out"].split("</style>")[-1]
+    for w in want:
+        if not _re.search(w, body):
+            i = w.split('"')[1]
+            m = _re.search(r'<\w+ id="%s"[^>]*>' % i, body)
+            return {"input": doc, "observed": "written as %s" % (m.group(0) if m else "?"), "expected": "/%s/" % w}
+    return None
+
+
+GENERATORS.insert(0, ("C09.delta.", _size_delta_round))
